@@ -414,4 +414,136 @@ theorem sources_fold_inv (names : List String) (conn : List (List Nat)) (n : Nat
     apply dijkstra_inv names conn n order s n _ m _ h
     intro hmem; have := (List.mem_filter.mp hmem).2; simp at this
 
+
+theorem initMap_eq (conn : List (List Nat)) (n : Nat) : initRoutes conn n = initMap conn n := rfl
+
+/-- the map `_makeConnectionMap` stores satisfies the invariant, for every tie-break order -/
+theorem routeMap_inv (names : List String) (conn : List (List Nat)) (order : List Nat)
+    (hc : ConnOK conn names.length) (hn : names.length ≠ 1) :
+    Inv conn names.length (routeMap names conn order).1 := by
+  unfold routeMap
+  simp only [hn, ↓reduceIte]
+  unfold relaxAll
+  rw [initMap_eq]
+  exact sources_fold_inv names conn names.length order _ _ (initMap_inv conn names.length hc)
+
+theorem foldl_max_mono (g : Nat → Nat → Nat) (hg : ∀ acc x, acc ≤ g acc x) : ∀ (l : List Nat) (i : Nat), i ≤ l.foldl g i := by
+  intro l
+  induction l with
+  | nil => intro i; exact Nat.le_refl i
+  | cons z u ih => intro i; simp only [List.foldl_cons]; exact Nat.le_trans (hg i z) (ih _)
+
+/-- the maximum computed by the constructor dominates every off-diagonal distance -/
+theorem maxDist_ge (m : RouteMap) (n a b : Nat) (ha : a < n) (hb : b < n) (hab : a ≠ b) : m.d a b ≤ maxDist m n := by
+  unfold maxDist
+  have hin : ∀ acc x, acc ≤ (fun acc b' => if a ≠ b' ∧ m.d a b' > acc then m.d a b' else acc) acc x := by
+    intro acc x; simp only; split <;> omega
+  have hinA : ∀ (a' : Nat) acc x, acc ≤ (fun acc b' => if a' ≠ b' ∧ m.d a' b' > acc then m.d a' b' else acc) acc x := by
+    intro a' acc x; simp only; split <;> omega
+  have inner : ∀ (l : List Nat) (init : Nat), b ∈ l →
+      m.d a b ≤ l.foldl (fun acc b' => if a ≠ b' ∧ m.d a b' > acc then m.d a b' else acc) init := by
+    intro l
+    induction l with
+    | nil => intro _ h; simp at h
+    | cons y t ih =>
+      intro init hy
+      simp only [List.foldl_cons]
+      rcases List.mem_cons.mp hy with rfl | hy
+      · refine Nat.le_trans ?_ (foldl_max_mono _ hin t _)
+        simp only [hab, ne_eq, not_false_eq_true, true_and]
+        split <;> omega
+      · exact ih _ hy
+  have hout : ∀ acc x, acc ≤ (fun acc a' => (List.range n).foldl
+      (fun acc b' => if a' ≠ b' ∧ m.d a' b' > acc then m.d a' b' else acc) acc) acc x := by
+    intro acc x; exact foldl_max_mono _ (hinA x) _ acc
+  have outer : ∀ (l : List Nat) (init : Nat), a ∈ l →
+      m.d a b ≤ l.foldl (fun acc a' => (List.range n).foldl
+        (fun acc b' => if a' ≠ b' ∧ m.d a' b' > acc then m.d a' b' else acc) acc) init := by
+    intro l
+    induction l with
+    | nil => intro _ h; simp at h
+    | cons y t ih =>
+      intro init hy
+      simp only [List.foldl_cons]
+      rcases List.mem_cons.mp hy with rfl | hy
+      · exact Nat.le_trans (inner _ init (by simpa using hb)) (foldl_max_mono _ hout t _)
+      · exact ih _ hy
+  exact outer _ 0 (by simpa using ha)
+
+theorem maxDist_le (m : RouteMap) (n B : Nat) (h : ∀ a b, m.d a b ≤ B) : maxDist m n ≤ B := by
+  unfold maxDist
+  have upIn : ∀ (a' : Nat) (l : List Nat) (i : Nat), i ≤ B →
+      l.foldl (fun acc b' => if a' ≠ b' ∧ m.d a' b' > acc then m.d a' b' else acc) i ≤ B := by
+    intro a' l
+    induction l with
+    | nil => intro i hi; exact hi
+    | cons z u ihu =>
+      intro i hi
+      simp only [List.foldl_cons]
+      apply ihu
+      split
+      · exact h a' z
+      · exact hi
+  have upOut : ∀ (l : List Nat) (i : Nat), i ≤ B →
+      l.foldl (fun acc a' => (List.range n).foldl
+        (fun acc b' => if a' ≠ b' ∧ m.d a' b' > acc then m.d a' b' else acc) acc) i ≤ B := by
+    intro l
+    induction l with
+    | nil => intro i hi; exact hi
+    | cons z u ihu => intro i hi; simp only [List.foldl_cons]; exact ihu _ (upIn z _ i hi)
+  exact upOut _ 0 (Nat.zero_le _)
+
+/-- **route_valid**: if the constructor accepts the layout set (all layouts connected), then between any two different
+    layouts the stored route is a non-empty path of direct connections that ends at the destination and whose length is
+    the stored distance — for every iteration order of the set of unvisited layouts -/
+theorem routes_valid_of_connected (names : List String) (conn : List (List Nat)) (order : List Nat)
+    (hc : ConnOK conn names.length) (hn : names.length ≠ 1)
+    (hfull : (routeMap names conn order).2 = true) :
+    ∀ a b, a < names.length → b < names.length → a ≠ b →
+      ValidPath conn a b ((routeMap names conn order).1.r a b) ∧
+      ((routeMap names conn order).1.r a b).length = (routeMap names conn order).1.d a b := by
+  intro a b ha hb hab
+  have hinv := routeMap_inv names conn order hc hn
+  apply hinv.fin
+  have hle := hinv.le a b
+  by_contra hcon
+  have hinf : (routeMap names conn order).1.d a b = names.length + 1 := by omega
+  have hge := maxDist_ge (routeMap names conn order).1 names.length a b ha hb hab
+  have hup := maxDist_le (routeMap names conn order).1 names.length (names.length + 1) hinv.le
+  have hmax : maxDist (routeMap names conn order).1 names.length = names.length + 1 := by omega
+  unfold routeMap at hfull hmax
+  simp only [hn, ↓reduceIte] at hfull hmax
+  simp [hmax] at hfull
+
+
+/-- the connection lists the constructors build are duplicate-free, symmetric and irreflexive -/
+theorem connectionsOf_ok (n : Nat) (compat : Nat → Nat → Bool) : ConnOK (connectionsOf n compat) n := by
+  have hget : ∀ a, nbrs (connectionsOf n compat) a =
+      if a < n then (List.range n).filter (fun b => decide (b ≠ a) && compat (max a b) (min a b)) else [] := by
+    intro a
+    unfold nbrs connectionsOf
+    by_cases h : a < n
+    · simp [h, List.getD_eq_getElem?_getD]
+    · simp [h, List.getD_eq_getElem?_getD]
+  constructor
+  · intro a
+    rw [hget a]
+    split
+    · exact List.Nodup.sublist List.filter_sublist List.nodup_range
+    · exact List.nodup_nil
+  · intro a b ha hb
+    rw [hget a] at hb
+    simp only [ha, ↓reduceIte, List.mem_filter, List.mem_range, Bool.and_eq_true, decide_eq_true_eq] at hb
+    obtain ⟨hbn, hne, hc⟩ := hb
+    refine ⟨hbn, ?_⟩
+    rw [hget b]
+    simp only [hbn, ↓reduceIte, List.mem_filter, List.mem_range, Bool.and_eq_true, decide_eq_true_eq]
+    refine ⟨ha, Ne.symm hne, ?_⟩
+    rw [Nat.max_comm, Nat.min_comm]; exact hc
+  · intro a ha
+    rw [hget a] at ha
+    split at ha
+    · simp at ha
+    · simp at ha
+
 end PygyroVerif.RouteValid
